@@ -67,7 +67,8 @@ def _optimizer_space(tier):
     """(maxlen, start, alpha) triples explored exhaustively by TLC."""
     if tier == 'quick':
         return [(2, 1, 1), (3, 3, 2), (2, 2, 3), (2, 4, 4), (4, 3, 5)]
-    return [(3, 1, 1), (4, 3, 2), (3, 2, 3), (3, 2, 1), (3, 4, 4), (5, 3, 5)]
+    return [(3, 1, 1), (4, 3, 2), (3, 2, 3), (3, 2, 1), (3, 4, 4), (5, 3, 5),
+            (3, 6, 1), (3, 7, 7), (3, 8, 8), (3, 9, 10), (3, 1, 9)]
 
 
 def _start_sig(start_id):
